@@ -217,7 +217,7 @@ Do(c, s) ==
                  [s.cols[i] EXCEPT !.cells = [k \in 1..s.nech |-> c.val + 10 * UidRank(s, s.cols[i].uid) + k - 1]]]]
     [] c.op = "updArray" ->            \* EOperator::ADD
          IF c.uid \notin Uids(s) \/ c.iech < 0 \/ c.iech >= s.nech THEN s
-         ELSE [s EXCEPT !.cols[ColOf(s, c.uid)].cells[c.iech + 1] = @ + c.val]
+         ELSE [s EXCEPT !.cols[ColOf(s, c.uid)].cells[c.iech + 1] = IF @ = -999 THEN -999 ELSE @ + c.val]   \* NA is absorbing
     [] c.op = "setColumnByColIdx" ->
          IF c.col >= 0 /\ c.col < NCol(s) THEN [s EXCEPT !.cols[c.col + 1].cells = [k \in 1..s.nech |-> c.val + k - 1]] ELSE s
     [] c.op = "setColumnByUID"  ->
